@@ -17,7 +17,9 @@ From Coq Require Import PeanoNat ZArith ZifyN ZifyNat ZifyBool.
 Notation lenN := Spec.lenN.
 (* parts A-C use plain linear arithmetic (div/mod terms are atoms); part D switches the
    div/mod preprocessing of lia on *)
-Ltac Zify.zify_post_hook ::= idtac.
+Local Ltac Zify.zify_post_hook ::= idtac.
+(* several coqc processes share .lia.cache in this directory; do not depend on it *)
+Unset Lia Cache.
 Open Scope N_scope.
 
 Local Opaque two64.
@@ -431,7 +433,7 @@ Qed.
 (* ------------------------------------------------------------------------------------ *)
 (* D. the flat helpers                                                                   *)
 
-Ltac Zify.zify_post_hook ::= Z.div_mod_to_equations.
+Local Ltac Zify.zify_post_hook ::= Z.div_mod_to_equations.
 
 Lemma pad32_exact l : length l = 32%nat -> pad32 l = l.
 Proof.
